@@ -21,6 +21,14 @@ import (
 // VerifDir is where MANIFEST.json, evidence/, replays/ live.
 var VerifDir = "/verif"
 
+func init() {
+	// bin/check exports the directory it lives in (a scratch copy of /verif
+	// used to try seeded changes must not write into /verif)
+	if d := os.Getenv("VERIF_DIR"); d != "" {
+		VerifDir = d
+	}
+}
+
 // InfraError marks a failure of the machinery itself (exit 2, never VIOLATION).
 type InfraError struct{ Msg string }
 
@@ -32,6 +40,9 @@ func (e InfraError) Error() string { return e.Msg }
 func ExecRun(sc *Scenario, params map[string]string, property string,
 	src *choice.Source, tracing bool) (res *Result, infra error) {
 	ctx := NewCtx(src, params, property, tracing)
+	for _, f := range PreRun {
+		f(src.Aux)
+	}
 	defer func() {
 		if r := recover(); r != nil {
 			stack := string(debug.Stack())
@@ -228,11 +239,47 @@ func envSeed() uint64 {
 	return 1
 }
 
+// SimBinary is the path of the simulation binary: the sibling "<name>-sim"
+// built with the faketime tag if there is one, else this binary.
+func SimBinary() string {
+	self := os.Args[0]
+	if p, err := os.Executable(); err == nil {
+		self = p
+	}
+	if Faketime {
+		return self
+	}
+	if _, err := os.Stat(self + "-sim"); err == nil {
+		return self + "-sim"
+	}
+	return self
+}
+
 // Main is the entry point of cmd/simcheck.
 func Main(args []string) int {
 	if len(args) < 1 {
 		fmt.Fprintln(os.Stderr, "usage: simcheck check <prop> <tier> | worker ... | replay <file> | selftest <scenario> | list")
 		return 2
+	}
+	switch args[0] {
+	case "worker", "replay", "evalserver", "one", "dethash":
+		// everything that executes simulated runs is done by the simulation
+		// binary (faketime runtime); this binary only drives it
+		if sb := SimBinary(); !Faketime && sb != os.Args[0] {
+			cmd := exec.Command(sb, args...)
+			cmd.Stdin, cmd.Stdout, cmd.Stderr = os.Stdin, os.Stdout, os.Stderr
+			if _, set := os.LookupEnv("GOMAXPROCS"); !set {
+				cmd.Env = append(os.Environ(), "GOMAXPROCS=1")
+			}
+			if err := cmd.Run(); err != nil {
+				if ee, ok := err.(*exec.ExitError); ok {
+					return ee.ExitCode()
+				}
+				fmt.Fprintln(os.Stderr, err)
+				return 2
+			}
+			return 0
+		}
 	}
 	switch args[0] {
 	case "list":
@@ -359,6 +406,9 @@ func dethash(args []string) int {
 			continue
 		}
 		fmt.Printf("%d %016x %d %d v=%d\n", s, res.TraceHash, src.Len(), res.Events, len(res.Violations))
+		if os.Getenv("VERIF_DETHASH_SEEDS") != "" {
+			fmt.Printf("  run_seed=%d\n", choice.Mix(s, 7))
+		}
 	}
 	return 0
 }
@@ -423,7 +473,7 @@ func parent(prop, tier string) int {
 				}
 				outFile := filepath.Join(workDir, fmt.Sprintf("w%d.json", w))
 				_ = os.Remove(outFile)
-				cmd := exec.Command(os.Args[0], "worker", prop, tier, strconv.FormatUint(seed, 10),
+				cmd := exec.Command(SimBinary(), "worker", prop, tier, strconv.FormatUint(seed, 10),
 					strconv.Itoa(w), strconv.Itoa(nw), strconv.FormatInt(left, 10), outFile)
 				cmd.Stderr = os.Stderr
 				cmd.Stdout = os.Stderr
@@ -677,8 +727,8 @@ func worker(args []string) int {
 	parts := allParts(c, tier)
 	known := loadKnown()
 	out := workerOut{Counters: map[string]int64{}, Known: map[string]int64{}, PartRuns: map[string]int64{}}
-	start := time.Now()
-	deadline := start.Add(time.Duration(budget) * time.Second)
+	start := RealNow()
+	deadline := start + time.Duration(budget)*time.Second
 	spent := make([]time.Duration, len(parts))
 	count := make([]uint64, len(parts))
 	if sc := os.Getenv("VERIF_START_COUNT"); sc != "" {
@@ -701,11 +751,11 @@ func worker(args []string) int {
 		for s := range states {
 			out.States = append(out.States, s)
 		}
-		out.WallS = time.Since(start).Seconds()
+		out.WallS = (RealNow() - start).Seconds()
 		b, _ := json.Marshal(out)
 		_ = os.WriteFile(outFile, b, 0o644)
 	}
-	for time.Now().Before(deadline) {
+	for RealNow() < deadline {
 		if out.Runs%8 == 7 {
 			var ms runtime.MemStats
 			runtime.ReadMemStats(&ms)
@@ -752,10 +802,10 @@ func worker(args []string) int {
 		params := withIndex(p.Params, idx)
 		src := choice.FromSeed(runSeed)
 		_ = os.WriteFile(outFile+".cur", []byte(fmt.Sprintf("scenario=%s params=%s run_seed=%d", p.Scenario, ParamString(params), runSeed)), 0o644)
-		t0 := time.Now()
+		t0 := RealNow()
 		res, infra := ExecRun(sc, params, prop, src, false)
-		spent[best] += time.Since(t0)
-		if d := time.Since(t0); d > 5*time.Second {
+		spent[best] += RealNow() - t0
+		if d := RealNow() - t0; d > 5*time.Second {
 			fmt.Fprintf(os.Stderr, "slow run: scenario=%s params=%s run_seed=%d took %.1fs (%d draws)\n", p.Scenario, ParamString(params), runSeed, d.Seconds(), src.Len())
 		}
 		key := p.Scenario + "{" + ParamString(p.Params) + "}"
@@ -888,6 +938,16 @@ func replay(path string) int {
 		return 2
 	}
 	s := choice.FromTape(rf.Tape, rf.Aux)
+	if os.Getenv("VERIF_ALLVIO") != "" {
+		// debugging aid: let the oracles of every property speak
+		res, _ := ExecRun(sc, rf.Params, "", s, false)
+		if res != nil {
+			for _, v := range res.Violations {
+				fmt.Printf("allvio %s/%s %s\n", v.Property, v.Oracle, v.Detail)
+			}
+		}
+		return 0
+	}
 	res, infra := ExecRun(sc, rf.Params, rf.Property, s, true)
 	if infra != nil {
 		fmt.Fprintln(os.Stderr, "INFRA:", infra)
